@@ -12,7 +12,13 @@
    Same order of sub-steps, same rounding at every division, ok = FALSE where the code returns Err.
    Overflow of the machine type is not modelled (small world: every value < 2^31, TLC would stop).
    Swaps inside a decrease (DecreasePositionSwapType # NoSwap) and the virtual inventory for swaps
-   are outside this module.
+   are outside this module (DecreaseWith takes the swap of the profit as a parameter; the composed
+   specification Exchange.tla supplies it).
+
+   Non-atomicity: the crate mutates position and market in place and validates afterwards.  Results
+   carry, besides p / m (unchanged inputs when ok = FALSE: what the caller sees once the programs'
+   revertible market has discarded the attempt), the state the code really leaves behind:
+   pp / pm = position / market at the failing step (= p / m when ok = TRUE).
 
    Shapes (identical to the JSON the drivers log):
      price   [min, max]                        px  [i, l, s]   index / long token / short token price
@@ -225,7 +231,9 @@ ViAfter(vi, long, d) ==
 ZeroRep == [imp |-> 0, impAmt |-> 0, diff |-> 0, xprice |-> 0, dtok |-> 0, dcoll |-> 0, wd |-> 0, dsize |-> 0,
             pnl |-> 0, unc |-> 0, step |-> "", remove |-> FALSE, out |-> 0, sec |-> 0, clL |-> 0, clS |-> 0,
             hold |-> 0, uo |-> 0, us |-> 0, feeCost |-> 0, fund |-> 0]
-Failed(p, m) == [ok |-> FALSE, p |-> p, m |-> m, rep |-> ZeroRep]
+(* pp / pm: the partial state left behind by the failing step (the crate's actions are not atomic) *)
+FailedAt(p, m, pp, pm) == [ok |-> FALSE, p |-> p, m |-> m, rep |-> ZeroRep, pp |-> pp, pm |-> pm]
+Failed(p, m) == FailedAt(p, m, p, m)
 
 -----------------------------------------------------------------------------
 (* action/increase_position.rs.  acc = -1: no acceptable price *)
@@ -262,15 +270,27 @@ Increase(p0, m, px, dColl, dSize, acc) ==
       rep    == [ZeroRep EXCEPT !.imp = impV, !.impAmt = impAmt, !.dtok = dtok, !.xprice = xprice,
                                 !.dcoll = dcoll, !.dsize = dSize, !.feeCost = fees.cost, !.fund = fees.fund,
                                 !.clL = fees.clL, !.clS = fees.clS]
+      \* partial states, in the order the code mutates: process_collateral (claimable fees, pool, then the
+      \* collateral sum), position collateral, impact pool, total borrowing, sizes + snapshots, open interest
+      \* (usd, max check, positions VI, tokens)
+      mA     == [m EXCEPT !.fee[cs] = @ + fees.forRecv, !.pool[cs] = @ + fees.forPool]
+      mB     == [mA EXCEPT !.csum[side][cs] = csum1]
+      pC     == [p1 EXCEPT !.coll = coll1]
+      mC     == [mB EXCEPT !.ip = ip1]
+      mD     == [mC EXCEPT !.tb[side] = tb1]
+      mE     == [mD EXCEPT !.oi[side][cs] = @ + dSize]
   IN IF ~PricesValid(px) THEN Failed(p0, m)
-     ELSE IF dSize # 0 /\ (~raw.ok \/ dtok <= 0 \/ ~accOk) THEN Failed(p0, m)
-     ELSE IF ~fees.ok THEN Failed(p0, m)
-     ELSE IF coll1 < 0 \/ csum1 < 0 \/ ip1 < 0 \/ tb1 < 0 THEN Failed(p0, m)
-     ELSE IF dSize > 0 /\ Sum4(m2.oi, p1.long) > m.c.maxOI THEN Failed(p0, m)
+     ELSE IF dSize # 0 /\ (~raw.ok \/ dtok <= 0 \/ ~accOk) THEN FailedAt(p0, m, p1, m)
+     ELSE IF ~fees.ok THEN FailedAt(p0, m, p1, m)
+     ELSE IF csum1 < 0 THEN FailedAt(p0, m, p1, mA)
+     ELSE IF coll1 < 0 THEN FailedAt(p0, m, p1, mB)
+     ELSE IF ip1 < 0 THEN FailedAt(p0, m, pC, mB)
+     ELSE IF tb1 < 0 THEN FailedAt(p0, m, pC, mC)
+     ELSE IF dSize > 0 /\ Sum4(m2.oi, p1.long) > m.c.maxOI THEN FailedAt(p0, m, p2, mE)
      ELSE IF dSize # 0 /\ (~ReserveOk(m2, px, p1.long, m.c.resF) \/ ~ReserveOk(m2, px, p1.long, m.c.oiResF)
-                           \/ ~will.ok \/ ~will.suff) THEN Failed(p0, m)
-     ELSE IF ~Validate(p2, m2, px, TRUE, TRUE) THEN Failed(p0, m)
-     ELSE [ok |-> TRUE, p |-> p2, m |-> m2, rep |-> rep]
+                           \/ ~will.ok \/ ~will.suff) THEN FailedAt(p0, m, p2, m2)
+     ELSE IF ~Validate(p2, m2, px, TRUE, TRUE) THEN FailedAt(p0, m, p2, m2)
+     ELSE [ok |-> TRUE, p |-> p2, m |-> m2, rep |-> rep, pp |-> p2, pm |-> m2]
 
 -----------------------------------------------------------------------------
 (* decrease_position/utils.rs: get_execution_price_for_decrease *)
@@ -319,7 +339,8 @@ AddImpact(st, imp, ctx) ==
   LET amt == CeilDiv(imp, ctx.ip.min)
       ded == imp \div ctx.pp.max IN
   IF ~Live(st) \/ imp <= 0 THEN st
-  ELSE IF st.m.ip < amt \/ st.m.pool[Sd(ctx.pl)] < ded THEN [st EXCEPT !.ok = FALSE]
+  ELSE IF st.m.ip < amt THEN [st EXCEPT !.ok = FALSE]
+  ELSE IF st.m.pool[Sd(ctx.pl)] < ded THEN [st EXCEPT !.ok = FALSE, !.m.ip = @ - amt]   \* impact pool already debited
   ELSE Credit([st EXCEPT !.m.ip = @ - amt, !.m.pool[Sd(ctx.pl)] = @ - ded], ctx, ded)
 
 PayFunding(st, amount, ctx) ==
@@ -356,8 +377,11 @@ PayDiff(st, diff, ctx) ==
   IF ~Live(st) \/ diff = 0 THEN st
   ELSE IF r.left # 0 THEN StopAt(s1, "Diff", ctx) ELSE s1
 
-(* action/decrease_position/mod.rs.  fl = [insolvent, liq, cap] (DecreasePositionFlags) *)
-Decrease(p, m, px, dSize0, acc, wd0, fl) ==
+(* action/decrease_position/mod.rs.  fl = [insolvent, liq, cap] (DecreasePositionFlags).
+   Mid(st, ctx) is what happens between add_price_impact_if_positive and pay_for_funding_fees:
+   swap_profit_to_collateral_tokens (the identity for DecreasePositionSwapType::NoSwap). *)
+NoMid(st, ctx) == st
+DecreaseWith(p, m, px, dSize0, acc, wd0, fl, Mid(_, _)) ==
   LET side    == Sd(p.long)
       cs      == Sd(p.clong)
       cpx     == TokPrice(px, p.clong)
@@ -399,7 +423,8 @@ Decrease(p, m, px, dSize0, acc, wd0, fl) ==
                   ins |-> ins]
       s0      == [ok |-> TRUE, stop |-> "", out |-> 0, sec |-> 0, rem |-> p.coll, m |-> m, hold |-> 0,
                   uo |-> 0, us |-> 0, cleared |-> FALSE]
-      s7      == PayDiff(PayImpact(PayFees(PayPnl(PayFunding(AddImpact(AddPnl(s0, pv.pnl, ctx), impV, ctx),
+      s2      == AddImpact(AddPnl(s0, pv.pnl, ctx), impV, ctx)
+      s7      == PayDiff(PayImpact(PayFees(PayPnl(PayFunding(IF Live(s2) THEN Mid(s2, ctx) ELSE s2,
                          fees.fund, ctx), pv.pnl, ctx), fees, ctx), impV, ctx), diff, ctx)
       diffAmt == diff \div cpx.min
       w4      == IF w3 # 0 /\ diff # 0 THEN (IF w3 > diffAmt THEN w3 - diffAmt ELSE 0) ELSE w3
@@ -431,15 +456,27 @@ Decrease(p, m, px, dSize0, acc, wd0, fl) ==
                                  !.out = outF, !.sec = secF, !.clL = fees.clL, !.clS = fees.clS, !.hold = s7.hold,
                                  !.uo = s7.uo, !.us = s7.us, !.feeCost = IF s7.cleared THEN 0 ELSE fees.cost,
                                  !.fund = fees.fund]
+      \* partial states after process_collateral, in the order the code mutates: total borrowing, position
+      \* sizes + collateral, collateral sum, position snapshots, open interest usd, positions VI, tokens
+      mT      == [s7.m EXCEPT !.tb[side] = tb1]
+      pS      == [p EXCEPT !.size = IF remove THEN 0 ELSE nsize, !.tok = IF remove THEN 0 ELSE ntok, !.coll = coll9]
+      mU      == [mT EXCEPT !.csum[side][cs] = csum1]
+      mV      == [mU EXCEPT !.oi[side][cs] = oi1, !.vi = ViAfter(@, p.long, -d3)]
   IN IF ~PricesValid(px) \/ empty THEN Failed(p, m)
      ELSE IF dSize0 > p.size /\ ~fl.cap THEN Failed(p, m)
      ELSE IF partErr \/ liqErr THEN Failed(p, m)
      ELSE IF d3 # 0 /\ (~raw.ok \/ ~xp.ok) THEN Failed(p, m)
      ELSE IF ~pv.ok \/ ~fees.ok THEN Failed(p, m)
-     ELSE IF ~s7.ok THEN Failed(p, m)
-     ELSE IF tb1 < 0 \/ ntok < 0 \/ csum1 < 0 \/ (d3 # 0 /\ (oi1 < 0 \/ oit1 < 0)) THEN Failed(p, m)
-     ELSE IF ~remove /\ ~Validate(p9, m9, px, FALSE, FALSE) THEN Failed(p, m)
-     ELSE [ok |-> TRUE, p |-> p9, m |-> m9, rep |-> rep]
+     ELSE IF ~s7.ok THEN FailedAt(p, m, p, s7.m)
+     ELSE IF tb1 < 0 THEN FailedAt(p, m, p, s7.m)
+     ELSE IF ntok < 0 THEN FailedAt(p, m, p, mT)
+     ELSE IF csum1 < 0 THEN FailedAt(p, m, pS, mT)
+     ELSE IF d3 # 0 /\ oi1 < 0 THEN FailedAt(p, m, p9, mU)
+     ELSE IF d3 # 0 /\ oit1 < 0 THEN FailedAt(p, m, p9, mV)
+     ELSE IF ~remove /\ ~Validate(p9, m9, px, FALSE, FALSE) THEN FailedAt(p, m, p9, m9)
+     ELSE [ok |-> TRUE, p |-> p9, m |-> m9, rep |-> rep, pp |-> p9, pm |-> m9]
+
+Decrease(p, m, px, dSize0, acc, wd0, fl) == DecreaseWith(p, m, px, dSize0, acc, wd0, fl, NoMid)
 
 -----------------------------------------------------------------------------
 (* programs/store/src/ops/order.rs::execute_decrease_position: what the program adds around
